@@ -155,8 +155,23 @@ def h5_all_terms(ctx, fam):
         ctx.oblige(f'edge_value_{p}', ctx.eq(z._radial_term(n_, m_, 1.0), 1.0, rel=1e-6, abs_=1e-6))
 
 
+def plain_least_squares_call(ctx, fun, x0, k, N):
+    """Contract of the stubbed solver: the stub stands for 'the minimiser of sum(fun(x)**2) over all of R^N' only if the library asks
+    for exactly that - the default linear loss, no bounds, a start vector of N entries.  Anything else (a robust loss, box bounds,
+    a shorter start vector) makes the returned coefficients something other than the least-squares fit of the data."""
+    ok = k.get('loss', 'linear') == 'linear' and len(x0) == N
+    b = k.get('bounds')
+    if b is not None:
+        lo, hi = b
+        ok = ok and bool(np.all(np.isneginf(np.asarray(lo, dtype=float)))) and bool(np.all(np.isposinf(np.asarray(hi, dtype=float))))
+    extra = set(k) - {'loss', 'bounds', 'jac', 'method', 'ftol', 'xtol', 'gtol', 'x_scale', 'max_nfev', 'verbose', 'tr_solver', 'tr_options',
+                      'jac_sparsity', 'diff_step', 'f_scale', 'args', 'kwargs'}
+    ctx.oblige('solver_is_asked_for_the_plain_least_squares_minimiser', ok and not extra and not k.get('args') and not k.get('kwargs'))
+
+
+
 @harness('C10', 'H6_fit', funcs=FUNCS, cases=lambda tier: [dict(fam=f) for f in ('fringe', 'standard', 'noll')],
-         stubs=['scipy.optimize.least_squares -> returns an arbitrary vector x (that it returns the least-squares minimiser is assumed)'],
+         stubs=['scipy.optimize.least_squares -> returns an arbitrary vector x (that it returns the least-squares minimiser is assumed; that the library asks for the plain minimiser - linear loss, no bounds, N unknowns - is an obligation)'],
          bounds='N = 4 terms, 3 symbolic sample points, symbolic generating coefficients; two fit objects alive at once',
          doc='ZernikeFit._objective(c) = poly_c(points) - data: zero at the generating coefficients, affine in c, linear in the data; '
              'coefficients reported by one fit are not disturbed by another fit of the same family')
@@ -191,6 +206,7 @@ def h6_fit(ctx, fam):
         pass
 
     def stub(fun, x0, **k):
+        plain_least_squares_call(ctx, fun, x0, k, N)
         r_ = R()
         r_.x = ctx.arr(*ret[len(calls)])
         calls.append(1)
@@ -235,6 +251,7 @@ def h7_fit_many(ctx, fam):
         pass
 
     def stub(fun, x0, **k):
+        plain_least_squares_call(ctx, fun, x0, k, N)
         r_ = R()
         r_.x = ctx.arr(*ret)
         return r_
